@@ -3,6 +3,7 @@ pub mod build;
 pub mod dec;
 pub mod load;
 pub mod parse;
+pub mod reflect;
 pub mod store;
 pub mod trav;
 
@@ -21,6 +22,8 @@ pub fn respond(line: &str) -> String {
         "load" => load::load(rest),
         "build" => build::build(rest),
         "buildrt" => build::buildrt(rest),
+        "reflect" => reflect::reflect(rest),
+        "idmut" => reflect::idmut(rest),
         "loadbin" => load::loadbin(rest),
         _ => "bad-request".to_string(),
     }
